@@ -832,13 +832,22 @@ fn check_multi(docs: &[String], rules: &str, as_dir: bool, evals: &mut u64) -> R
 }
 
 fn multi_case(u: &mut Choices, sz: Size) -> CaseResult {
-    let doc = gen_cfn_doc(u, &sz);
+    let mut doc = gen_cfn_doc(u, &sz);
+    let mut sz = sz;
+    sz.alt_case = u.chance(1, 2);
+    if sz.alt_case {
+        add_case_families(u, &mut doc);
+    }
     let file = gen_wide_file(u, &doc, sz, false);
     let text = print_file(&file);
     let n = u.range(2, 3);
     let mut docs = vec![doc.to_json()];
     for _ in 1..n {
-        docs.push(vary_doc(u, &doc, &sz).to_json());
+        let mut d = vary_doc(u, &doc, &sz);
+        if sz.alt_case && u.chance(1, 2) {
+            add_case_families(u, &mut d);
+        }
+        docs.push(d.to_json());
     }
     // the generating document is not always the first one
     let rot = u.below(n);
